@@ -49,7 +49,11 @@ func patchedFiles(repo, patch string) (map[string][]byte, error) {
 		os.MkdirAll(filepath.Dir(dst), 0o755)
 		c, err := os.ReadFile(src)
 		if err != nil {
-			return nil, fmt.Errorf("patch adds or targets a missing file %s", f)
+			// a file the patch creates (--- /dev/null): patch(1) writes it
+			if strings.Contains(string(b), "--- /dev/null\n+++ b/"+f+"\n") {
+				continue
+			}
+			return nil, fmt.Errorf("patch targets a missing file %s", f)
 		}
 		os.WriteFile(dst, c, 0o644)
 	}
